@@ -1,5 +1,6 @@
 import SuxModel.Base.Proto
 import SuxModel.BitVec.Runner
+import SuxModel.BitFieldVec.Runner
 /-!
 # `suxdrv <runner>` : line-protocol driver over the executable model definitions
 -/
@@ -16,7 +17,8 @@ partial def loop (h : IO.FS.Stream) (out : IO.FS.Stream) (R : Runner) (s : R.σ)
   loop h out R s'
 
 def runners : List (String × Runner) := [
-  ("bitvec", Sux.BV.runner)
+  ("bitvec", Sux.BV.runner),
+  ("bfv", Sux.BFV.runner)
 ]
 
 def main (args : List String) : IO UInt32 := do
